@@ -6,7 +6,6 @@ import z3
 from symx import *  # noqa: F403
 from symx.runner import Unit, restore_shadows, shadow
 
-from .hybrid_common import Arr
 from .search_common import conj
 
 PROPERTY = 'C09'
@@ -22,60 +21,59 @@ GF = z3.Function('GF', z3.RealSort(), z3.RealSort())
 TWO_PI = 6.283185307179586
 
 
+import numpy as _np
+
+
+def _obj(x):
+    a = _np.empty(len(x), dtype=object)
+    for i, v in enumerate(x):
+        a[i] = v
+    return a
+
+
 class FakeNP:
-    ndarray = Arr
+    """numpy facade: real numpy on object-dtype arrays (so z3 proxies survive slicing, broadcasting, dot, hstack ...);
+    anything not overridden here is numpy's own function."""
+    ndarray = _np.ndarray
+
+    def __getattr__(self, name):
+        return getattr(_np, name)
 
     @staticmethod
     def hstack(x):
-        if isinstance(x, tuple):
-            out = []
-            for p in x:
-                out.extend(p if isinstance(p, list) else [p])
-            return VArr(out)
-        return VArr(x)
+        parts = []
+        for p in (x if isinstance(x, (tuple, list)) else [x]):
+            if isinstance(p, _np.ndarray):
+                parts.extend(list(p))
+            elif isinstance(p, (list, tuple)):
+                parts.extend(p)
+            else:
+                parts.append(p)
+        return _obj(parts)
 
     @staticmethod
     def log(a):
-        return VArr([sym_log(v) if isinstance(v, Sym) else __import__('math').log(v) for v in a])
+        if isinstance(a, _np.ndarray):
+            return _obj([sym_log(v) for v in a])
+        return sym_log(a)
 
     @staticmethod
-    def array(x):
-        return VArr(list(x))
+    def array(x, dtype=None):
+        return _obj(list(x))
 
     @staticmethod
-    def arange(a, b, step=1):
-        return VArr(list(sym_range(a, b, step)))
+    def arange(a, b=None, step=1):
+        if b is None:
+            a, b = 0, a
+        return _obj(list(sym_range(a, b, step)))
+
+    @staticmethod
+    def zeros(n, dtype=None):
+        return _obj([0.0] * int(n))
 
 
-class VArr(Arr):
-    """list with numpy-like elementwise arithmetic (values stay exact z3 terms)"""
-
-    def __getitem__(self, k):
-        r = list.__getitem__(self, k)
-        return VArr(r) if isinstance(k, slice) else r
-
-    def _ew(self, o, f):
-        if isinstance(o, list):
-            if len(o) != len(self):
-                raise ValueError('operands could not be broadcast together with shapes (%d,) (%d,)' % (len(self), len(o)))
-            return VArr([f(a, b) for a, b in zip(self, o)])
-        return VArr([f(a, o) for a in self])
-
-    def __add__(self, o): return self._ew(o, lambda a, b: a + b)
-    __radd__ = __add__
-    def __sub__(self, o): return self._ew(o, lambda a, b: a - b)
-    def __rsub__(self, o): return self._ew(o, lambda a, b: b - a)
-    def __mul__(self, o): return self._ew(o, lambda a, b: a * b)
-    __rmul__ = __mul__
-    def __truediv__(self, o): return self._ew(o, lambda a, b: a / b)
-
-    def dot(self, o):
-        if len(o) != len(self):
-            raise ValueError('shapes not aligned')
-        s = 0
-        for a, b in zip(self, o):
-            s = s + a * b
-        return s
+def VArr(x):
+    return _obj(list(x))
 
 
 def gfun(a):
@@ -84,7 +82,7 @@ def gfun(a):
 
 def setup():
     import ghedesigner.ground_heat_exchangers as G
-    shadow(G, 'np', FakeNP)
+    shadow(G, 'np', FakeNP())
     shadow(G, 'float', sym_float)
     shadow(G, 'max', sym_max)
     shadow(G, 'min', sym_min)
